@@ -440,7 +440,8 @@ func (g *cyGen) projectionItems(isWith bool) []cyItem {
 
 func (g *cyGen) tail(items []cyItem) string {
 	var b strings.Builder
-	if g.rng.Chance(1, 3) {
+	cut := g.rng.Chance(1, 3)
+	if cut || g.rng.Chance(1, 4) {
 		g.use("order-by")
 		it := Pick(g.rng, items)
 		key := it.v.name
@@ -455,11 +456,12 @@ func (g *cyGen) tail(items []cyItem) string {
 			b.WriteString(" desc")
 		}
 	}
-	if g.rng.Chance(1, 5) {
+	// SKIP / LIMIT only together with ORDER BY (otherwise the result is an arbitrary subset in both languages)
+	if cut && g.rng.Chance(1, 2) {
 		g.use("skip")
 		b.WriteString(" skip " + Pick(g.rng, []string{"0", "1", "2"}))
 	}
-	if g.rng.Chance(1, 4) {
+	if cut && g.rng.Chance(2, 3) {
 		g.use("limit")
 		b.WriteString(" limit " + Pick(g.rng, []string{"0", "1", "2", "5"}))
 	}
